@@ -430,6 +430,19 @@ func runC04(r *core.Run) {
 			return core.Outcome{Class: fmt.Sprint("records=", len(c.Recs)), Nontrivial: len(c.Recs) >= 2, Evals: len(c.Recs) + 1}
 		})
 
+	marshalHistories(r, "bed", func() []marshaller {
+		var out []marshaller
+		recs := append(bedFilePool(12), bedFilePool(3)...)
+		long := defaultBed(4)
+		long.Name = core.S(longSeq(150))
+		recs = append(recs[:6], long)
+		for i, rc := range recs {
+			b := rc.build()
+			out = append(out, marshaller{fmt.Sprint("pool record ", i), b.MarshalText, func(w *bytes.Buffer) error { return b.Write(w) }})
+		}
+		return out
+	})
+
 	core.Clause(r, "bad-n", core.Opts{Rule: "N outside 3..12 (MinInt64, -1, 0, 1, 2, 13, 14, 100, MaxInt64) on a fully populated record: Write and MarshalText return an error and not a single byte reaches the writer; non-trivial = all"},
 		func(emit func(c04BadN) bool) {
 			for _, n := range []int{math.MinInt64, -1, 0, 1, 2, 13, 14, 100, math.MaxInt64} {
